@@ -346,7 +346,7 @@ func txPool(r *vk.Run) []txFile {
 func c20transmit(r *vk.Run, col *collector, merge func(map[string]int)) {
 	pool := txPool(r)
 	r.Count("transmit_pool_size", int64(len(pool)))
-	nSets := r.Pick(320, 2000)
+	nSets := r.Pick(320, 6000)
 	scratch := r.Scratch()
 	var wg sync.WaitGroup
 	var sampleOnce sync.Once
